@@ -49,6 +49,10 @@ def plan(tier, seed):
     shards += [("invalid", wi, wc, tier) for wi in range(3) for wc in range(nwc)]
     nd = 16 if tier == "quick" else 64
     shards += [("detector", c, nd, tier, mg) for c in range(nd) for mg in ((seed % 4,) if tier == "quick" else (0, 1, 2, 3))]
+    # the magnitude set written in metres (tiny pixel area in the chosen unit), and one slice of the C01 schedule exploration of the
+    # compiled kernels (a frame's peaks share omega: the run straddles the thread chunks)
+    shards += [("detector", c, nd, "thorough" if tier == "thorough" else "quick4", 4) for c in range(0, nd, 4 if tier == "quick" else 1)]
+    shards.append(("sched", tier, seed % 4))
     shards.append(("callers", tier, seed % 4))
     shards.append(("rotation_axis", tier))
     k = seed % len(shards)
@@ -240,7 +244,7 @@ def _run_detector(desc):
         # quick: every 4th configuration of the C01 grid (4096, offset chosen by the seed); thorough: all 16 384
         if idx % nd != c:
             continue
-        if tier == "quick" and (idx // nd) % 4 != seed % 4:
+        if tier in ("quick", "quick4") and (idx // nd) % 4 != seed % 4:
             continue
         sh.count("detector_configurations")
         p = dict(pars)
@@ -334,6 +338,9 @@ def _run_rotation_axis(desc):
 
 
 def run_shard(desc):
+    if desc[0] == "sched":
+        from vt.props import c01
+        return c01._run_sched(("sched", desc[1], desc[2], 1, 4))
     if desc[0] == "rotation_axis":
         return _run_rotation_axis(desc)
     if desc[0] == "callers":
@@ -344,6 +351,10 @@ def run_shard(desc):
 def replay(case):
     if case["kind"] == "callers":
         r = _run_callers(("callers", "thorough", case["mag"]))
+        return (not r.violations), {"violations": r.violations[:3]}
+    if case["kind"] == "sched":
+        from vt.props import c01
+        r = c01._run_sched(("sched", "quick", case["mag"], 1, 4))
         return (not r.violations), {"violations": r.violations[:3]}
     if case["kind"] == "rotation_axis":
         r = _run_rotation_axis(("rotation_axis", "quick"))
